@@ -50,9 +50,10 @@ MANIFEST = {
     'note': 'Trusted: Coq kernel, py2v + tools/gen/c08.py (role-based extraction, four tiny documented normalisations), the hand '
             'model of the loop structure (validated by the correspondence run), numba lowering.  Not modelled: float32 rounding of '
             'mu^2, of the weighted sums and of the final divisions; k_avg (sum of sqrt) and the l>0 pole sums are only compared '
-            'numerically with the oracle.  On the unchanged tree four defects are reported (Findings.v): odd-mesh fold, Nyquist '
-            'plane counted twice, bin_kppi break on the non-monotone j loop, bin_kppi pi search before its range check (out-of-bounds '
-            'read); the theorems hold for the tree with /verif/fixes/C08-*.patch applied.',
+            'numerically with the oracle.  Four genuine defects of the pinned tree were found by this check and repaired by fix: commits '
+            '539df9f, b374a71, 9161cd2, 9933113 (odd-mesh fold, Nyquist plane counted twice, bin_kppi break on the non-monotone j loop, '
+            'bin_kppi pi search before its range check); Findings.v keeps the refutations of the original fragments and '
+            'known_findings.json lists them as fixed.',
 }
 
 L2PI = 2.0 * math.pi
